@@ -1062,6 +1062,18 @@ pub fn gen_c17(cx: &mut Ctx) {
 
 pub fn gen_c18(cx: &mut Ctx) {
     gen_c18_wide(cx);
+    // tables over numbers: the header follows the order of the inputs, not of their text
+    {
+        let ns = names(&["a", "b", "c", "d"]);
+        for _ in 0..40 {
+            let e = random_tree(&mut cx.rng, 3, &ns, false, 1);
+            for st in STYLES {
+                let fi = *cx.rng.pick(&FMTS);
+                let fo = *cx.rng.pick(&FMTS);
+                cx.emit("C18", "render.typed", &[Arg::F(Val::E(e.clone())), Arg::A(s(st)), Arg::A(s(fi)), Arg::A(s(fo))], true);
+            }
+        }
+    }
     let mut sets = table_name_sets(cx.thorough);
     sets.push(names(&["averyveryverylongname", "x_10", "é"]));
     sets.push(names(&["B", "aa"]));
